@@ -41,30 +41,59 @@ using kvref::Bytes;
 namespace
 {
 
-constexpr std::int64_t kT0 = 1700000000000LL; // fixed fake wall clock (epoch ms)
+constexpr std::int64_t kT0 = 1700000000000LL; // fake wall clock at the start of a case (epoch ms)
 
 // ------------------------------------------------------------------------------------
 // reference state
+//
+// The reference is a *belief*: per key the set of states the key may legitimately be in
+// (usually one). A state is "absent" or (value, optional absolute expiry in epoch ms).
+// Alternatives arise from the operation in flight at a crash (old or new state), from
+// persist/expireAt issued exactly at expiry == now (either outcome), and from reads whose
+// truncated ttl() cannot tell two expiries apart. Visibility is evaluated at the moment of
+// the read exactly as in the C12 reference: present iff expiry > now; at expiry == now both
+// answers are accepted.
 // ------------------------------------------------------------------------------------
 struct KState
 {
   Bytes value;
-  std::optional<std::int64_t> expiry; // absolute epoch ms, whole seconds after kT0
+  std::optional<std::int64_t> expiry; // absolute epoch ms
   bool operator==(const KState &o) const { return value == o.value && expiry == o.expiry; }
 };
-using KMap = std::map<std::string, KState>;
+using Alt = std::optional<KState>; // nullopt = absent
+using Alts = std::vector<Alt>;
+using Belief = std::map<std::string, Alts>; // missing key = {absent}
 
-std::string showState(const KState *s)
+const Alts &altsOf(const Belief &b, const std::string &k)
 {
-  if (!s) return "absent";
-  std::string r = kvref::showVal(s->value);
-  if (s->expiry) r += "(ttl " + std::to_string((*s->expiry - kT0) / 1000) + "s)";
-  return r;
+  static const Alts absent{Alt{}};
+  auto it = b.find(k);
+  return (it == b.end() || it->second.empty()) ? absent : it->second;
 }
-const KState *lookup(const KMap &m, const std::string &k)
+void addAlt(Alts &v, const Alt &a)
 {
-  auto it = m.find(k);
-  return it == m.end() ? nullptr : &it->second;
+  for (auto &x : v)
+    if (x == a) return;
+  v.push_back(a);
+}
+/// an alternative whose expiry lies strictly in the past can never be seen again: absent
+Alt normalised(const Alt &a, std::int64_t now)
+{
+  if (a && a->expiry && *a->expiry < now) return Alt{};
+  return a;
+}
+std::string showAlt(const Alt &a, std::int64_t now)
+{
+  if (!a) return "absent";
+  std::string r = kvref::showVal(a->value);
+  if (a->expiry)
+  {
+    std::int64_t d = *a->expiry - now;
+    if (d < 0) r += "(expired)";
+    else if (d == 0) r += "(expiring now: present or absent)";
+    else r += "(ttl " + std::to_string(d / 1000) + "s)";
+  }
+  return r;
 }
 
 struct Universe
@@ -111,11 +140,13 @@ Bytes makeVal(std::int64_t sel, const std::string &tag)
 // ------------------------------------------------------------------------------------
 // operations
 // ------------------------------------------------------------------------------------
-enum Op { OpSet, OpSetTtl, OpBatch, OpRemove, OpRemovePrefix, OpClear, OpExpireAt, OpPersist, OpCompact, OpReopen, OpCount };
-const char *kOpName[] = {"set", "setTtl", "batch", "remove", "removePrefix", "clear", "expireAt", "persist", "compact", "reopen"};
-const int kOpWeight[] = {26, 14, 10, 10, 5, 3, 10, 6, 8, 8}; // sum 100
-const std::int64_t kTtlSec[] = {5, 100, 3600};
-const std::int64_t kExpireOffSec[] = {-1, 5, 3600, 7};
+enum Op { OpSet, OpSetTtl, OpBatch, OpRemove, OpRemovePrefix, OpClear, OpExpireAt, OpPersist, OpCompact, OpReopen, OpAdvance, OpCount };
+const char *kOpName[] = {"set", "setTtl", "batch", "remove", "removePrefix", "clear", "expireAt", "persist", "compact", "reopen", "advance"};
+const int kOpWeight[] = {20, 14, 8, 8, 5, 3, 10, 8, 8, 6, 10}; // sum 100
+const std::int64_t kTtlSec[] = {5, 100, 3600, 1};
+const std::int64_t kExpireOffSec[] = {-1, 5, 3600, 7, 1, 86400};
+const std::int64_t kAdvanceMs[] = {1, 999, 1000, 3600000};
+const std::int64_t kGapMs[] = {0, 1, 999, 1000, 3600000}; // wall-clock time between a crash and the reopen
 
 Op decodeOp(std::int64_t r)
 {
@@ -138,13 +169,14 @@ struct Cfg
     c.enableBackgroundCompaction = false; // inline compaction when the log exceeds maxLog
     c.maxLogSizeBytes = maxLog;
     c.maxCacheSize = cache;
-    // Eviction wheel: 100 ms tick. Its only possible effect in a case is a 'D' record for a
-    // key that is already invisible (expire-at in the past; the wall clock is fixed), which
-    // changes no admissible state. A long tick would make the trace perfectly deterministic
-    // but is not affordable: TimingWheel::stopTickThread() notifies without holding the tick
-    // mutex, so a store that is closed right after it was opened can miss the tick thread on
-    // its way into wait_for() and then blocks for one full tick in its destructor (observed
-    // with a 60 s tick: the case sat in join() for a minute). 100 ms bounds that stall.
+    // Eviction wheel: 100 ms tick. Timers are armed with the remaining (fake) wall-clock time
+    // as a REAL delay (>= 1 s for every TTL used here), so within a case only delay-0 timers
+    // (expire-at in the past) can fire; their only file effect is a 'D' record for a key that
+    // is already invisible, which changes no admissible state. A long tick would make the
+    // trace perfectly deterministic but is not affordable: TimingWheel::stopTickThread()
+    // notifies without holding the tick mutex, so a store that is closed right after it was
+    // opened can miss the tick thread on its way into wait_for() and then blocks for one full
+    // tick in its destructor (observed with a 60 s tick: the case sat in join() for a minute).
     c.ttlTickDuration = std::chrono::milliseconds(100);
     return c;
   }
@@ -165,26 +197,41 @@ struct Applied
   std::set<std::string> touched;
 };
 
-/// Applies `st` to `kv` (may be null => only the reference is updated) and to `m`.
-/// Every value ever written to a key is remembered in `ever` (to tell torn/foreign values
-/// from stale ones).
-Applied applyStep(const Step &st, KVStore *kv, KMap &m, std::map<std::string, std::set<Bytes>> &ever)
+/// Applies `st` at wall-clock time `now` to `kv` (may be null => only the reference is
+/// updated) and to the belief `m`. OpAdvance moves the harness clock (and `now`). Every value
+/// ever written to a key is remembered in `ever` (to tell torn/foreign values from stale ones).
+Applied applyStep(const Step &st, KVStore *kv, Belief &m, std::map<std::string, std::set<Bytes>> &ever, std::int64_t &now)
 {
   Applied a;
   const pbt::Row &r = st.r;
-  // key choice: r[1] indexes the universe; with bit 4 of r[3] set (and a non-empty reference)
-  // it indexes the keys that currently exist, so remove/expireAt/persist/overwrite hit something
+  // normalise: alternatives that expired strictly before `now` are absent from here on
+  for (auto &kvp : m)
+  {
+    Alts n;
+    for (auto &x : kvp.second) addAlt(n, normalised(x, now));
+    kvp.second = std::move(n);
+  }
+  // key choice: r[1] indexes the universe; with bit 4 of r[3] set it indexes the keys that may
+  // currently exist (for persist/expireAt: preferably those carrying an expiry), so that
+  // remove/expireAt/persist/overwrite hit something
   auto pickKey = [&]() -> const std::string &
   {
-    if (((r[3] >> 4) & 1) && !m.empty())
+    if ((r[3] >> 4) & 1)
     {
-      auto it = m.begin();
-      std::advance(it, static_cast<long>(static_cast<std::size_t>(r[1]) % m.size()));
+      std::vector<const std::string *> live, withExp;
       for (const auto &k : U().keys)
-        if (k == it->first) return k;
+        for (const auto &x : altsOf(m, k))
+          if (x)
+          {
+            if (live.empty() || live.back() != &k) live.push_back(&k);
+            if (x->expiry && (withExp.empty() || withExp.back() != &k)) withExp.push_back(&k);
+          }
+      const auto &pool = ((st.op == OpPersist || st.op == OpExpireAt) && !withExp.empty()) ? withExp : live;
+      if (!pool.empty()) return *pool[static_cast<std::size_t>(r[1]) % pool.size()];
     }
     return U().key(r[1]);
   };
+  auto setAll = [&](const std::string &k, const Alt &s) { m[k] = Alts{s}; };
   switch (st.op)
   {
   case OpSet:
@@ -194,7 +241,7 @@ Applied applyStep(const Step &st, KVStore *kv, KMap &m, std::map<std::string, st
     a.desc = "set(" + kvref::showKey(k) + "," + kvref::showVal(v) + ")";
     a.touched = {k};
     ever[k].insert(v);
-    m[k] = KState{v, std::nullopt};
+    setAll(k, KState{v, std::nullopt});
     if (kv) kv->set(k, v);
     break;
   }
@@ -202,11 +249,11 @@ Applied applyStep(const Step &st, KVStore *kv, KMap &m, std::map<std::string, st
   {
     const std::string &k = pickKey();
     Bytes v = makeVal(r[2], st.tag);
-    std::int64_t ttl = kTtlSec[r[3] % 3];
+    std::int64_t ttl = kTtlSec[r[3] % 4];
     a.desc = pbt::Fmt() << "setTtl(" << kvref::showKey(k) << "," << kvref::showVal(v) << "," << ttl << "s)";
     a.touched = {k};
     ever[k].insert(v);
-    m[k] = KState{v, kT0 + ttl * 1000};
+    setAll(k, KState{v, now + ttl * 1000});
     if (kv) kv->set(k, v, std::chrono::seconds(ttl));
     break;
   }
@@ -215,7 +262,7 @@ Applied applyStep(const Step &st, KVStore *kv, KMap &m, std::map<std::string, st
     std::unordered_map<std::string, Bytes> b;
     std::size_t cnt = 2 + static_cast<std::size_t>(r[1] % 3);
     bool withTtl = (r[3] % 2) == 1;
-    std::int64_t ttl = kTtlSec[(r[3] / 2) % 3];
+    std::int64_t ttl = kTtlSec[(r[3] / 2) % 4];
     for (std::size_t j = 0; j < cnt; ++j)
     {
       const std::string &k = U().key(r[1] / 3 + static_cast<std::int64_t>(j) * 5);
@@ -229,7 +276,7 @@ Applied applyStep(const Step &st, KVStore *kv, KMap &m, std::map<std::string, st
       a.desc += kvref::showKey(kvp.first) + "=" + kvref::showVal(kvp.second) + " ";
       a.touched.insert(kvp.first);
       ever[kvp.first].insert(kvp.second);
-      m[kvp.first] = KState{kvp.second, withTtl ? std::optional<std::int64_t>(kT0 + ttl * 1000) : std::nullopt};
+      setAll(kvp.first, KState{kvp.second, withTtl ? std::optional<std::int64_t>(now + ttl * 1000) : std::nullopt});
     }
     a.desc += ")";
     if (kv)
@@ -244,7 +291,7 @@ Applied applyStep(const Step &st, KVStore *kv, KMap &m, std::map<std::string, st
     const std::string &k = pickKey();
     a.desc = "remove(" + kvref::showKey(k) + ")";
     a.touched = {k};
-    m.erase(k);
+    setAll(k, Alt{});
     if (kv) kv->remove(k);
     break;
   }
@@ -252,51 +299,64 @@ Applied applyStep(const Step &st, KVStore *kv, KMap &m, std::map<std::string, st
   {
     const std::string &p = U().prefix(r[1]);
     a.desc = "removePrefix(" + kvref::showKey(p) + ")";
-    for (auto it = m.begin(); it != m.end();)
-      if (it->first.size() >= p.size() && it->first.compare(0, p.size(), p) == 0)
+    for (auto &kvp : m)
+      if (kvp.first.size() >= p.size() && kvp.first.compare(0, p.size(), p) == 0)
       {
-        a.touched.insert(it->first);
-        it = m.erase(it);
+        a.touched.insert(kvp.first);
+        kvp.second = Alts{Alt{}};
       }
-      else ++it;
     if (kv) kv->removeWithPrefix(p);
     break;
   }
   case OpClear:
     a.desc = "clear()";
-    for (auto &kvp : m) a.touched.insert(kvp.first);
-    m.clear();
+    for (auto &kvp : m)
+    {
+      a.touched.insert(kvp.first);
+      kvp.second = Alts{Alt{}};
+    }
     if (kv) kv->clear();
     break;
   case OpExpireAt:
-  {
-    const std::string &k = pickKey();
-    std::int64_t off = kExpireOffSec[r[2] % 4];
-    a.desc = pbt::Fmt() << "expireAt(" << kvref::showKey(k) << ",now" << (off >= 0 ? "+" : "") << off << "s)";
-    a.touched = {k};
-    auto it = m.find(k);
-    if (it != m.end())
-    {
-      if (off <= 0) m.erase(it); // expiry in the past: gone from now on (the clock is fixed)
-      else it->second.expiry = kT0 + off * 1000;
-    }
-    if (kv) kv->expireAt(k, std::chrono::system_clock::time_point(std::chrono::milliseconds(kT0 + off * 1000)));
-    break;
-  }
   case OpPersist:
   {
     const std::string &k = pickKey();
-    a.desc = "persist(" + kvref::showKey(k) + ")";
+    std::int64_t off = kExpireOffSec[r[2] % 6];
+    if (st.op == OpExpireAt) a.desc = pbt::Fmt() << "expireAt(" << kvref::showKey(k) << ",now" << (off >= 0 ? "+" : "") << off << "s)";
+    else a.desc = "persist(" + kvref::showKey(k) + ")";
     a.touched = {k};
-    auto it = m.find(k);
-    if (it != m.end()) it->second.expiry.reset();
-    if (kv) kv->persist(k);
+    Alts out;
+    for (const auto &x : altsOf(m, k))
+    {
+      if (!x) { addAlt(out, x); continue; } // absent: silent no-op
+      KState n = *x;
+      if (st.op == OpExpireAt) n.expiry = now + off * 1000;
+      else n.expiry.reset();
+      // a key exactly at expiry == now may be treated as present (operation applies) or as
+      // already gone (no-op): both outcomes are admissible
+      if (x->expiry && *x->expiry == now) addAlt(out, x);
+      addAlt(out, normalised(Alt{n}, now));
+    }
+    m[k] = out;
+    if (kv)
+    {
+      if (st.op == OpExpireAt) kv->expireAt(k, std::chrono::system_clock::time_point(std::chrono::milliseconds(now + off * 1000)));
+      else kv->persist(k);
+    }
     break;
   }
   case OpCompact:
     a.desc = "compact()";
     if (kv) kv->compact();
     break;
+  case OpAdvance:
+  {
+    std::int64_t d = kAdvanceMs[r[1] % 4];
+    a.desc = pbt::Fmt() << "advance(" << d << "ms)";
+    now += d;
+    c12_clock_set(now);
+    break;
+  }
   default: a.desc = "?"; break;
   }
   return a;
@@ -305,9 +365,14 @@ Applied applyStep(const Step &st, KVStore *kv, KMap &m, std::map<std::string, st
 // ------------------------------------------------------------------------------------
 // reading a store and judging it
 // ------------------------------------------------------------------------------------
+struct Seen
+{
+  Bytes value;
+  std::optional<std::int64_t> ttlSec; // ttl() of the key, truncated seconds
+};
 struct Observed
 {
-  KMap state;
+  std::map<std::string, Seen> state;
   std::vector<std::string> foreignKeys;
   std::string inconsistency; // read APIs disagree with each other
 };
@@ -329,25 +394,55 @@ Observed readAll(KVStore &kv)
       o.inconsistency = "get/exists/keys disagree on " + kvref::showKey(k);
     if (v)
     {
-      KState s;
+      Seen s;
       s.value = *v;
-      if (t) s.expiry = kT0 + t->count() * 1000;
+      if (t) s.ttlSec = t->count();
       o.state[k] = std::move(s);
     }
   }
   return o;
 }
 
-struct Admissible
+std::string showSeen(const Seen *s)
 {
-  const KMap *acked = nullptr;             // state after the last operation that had returned
-  const KMap *after = nullptr;             // state after the operation in flight (may be null)
-  const std::set<std::string> *touched = nullptr;
-};
+  if (!s) return "absent";
+  std::string r = kvref::showVal(s->value);
+  if (s->ttlSec) r += "(ttl " + std::to_string(*s->ttlSec) + "s)";
+  return r;
+}
 
-/// empty string if `o` is admissible; otherwise sets `kind` (structural) and returns the text
-std::string judge(const Observed &o, const Admissible &ad, const std::map<std::string, std::set<Bytes>> &ever,
-                  std::string &kind)
+/// does a read at wall-clock time `now` that shows `got` agree with alternative `a`?
+bool agrees(const Alt &a, const Seen *got, std::int64_t now)
+{
+  if (!a) return got == nullptr;
+  if (!a->expiry) return got && got->value == a->value && !got->ttlSec;
+  std::int64_t d = *a->expiry - now;
+  if (d < 0) return got == nullptr;
+  bool present = got && got->value == a->value && got->ttlSec && *got->ttlSec == d / 1000;
+  if (d == 0) return got == nullptr || present;
+  return present;
+}
+
+/// The admissible belief at a crash: state after the last operation that had returned; keys
+/// touched by the operation in flight may also be in their state after that operation.
+Belief admissible(const Belief &acked, const Belief *after, const std::set<std::string> *touched)
+{
+  Belief b = acked;
+  if (after && touched)
+    for (const auto &k : *touched)
+    {
+      Alts v = altsOf(acked, k);
+      for (const auto &x : altsOf(*after, k)) addAlt(v, x);
+      b[k] = std::move(v);
+    }
+  return b;
+}
+
+/// empty string if `o`, read at time `now`, is admissible; `posterior` (optional) receives the
+/// belief narrowed to the alternatives that agree with the observation. Otherwise sets `kind`
+/// (structural) and returns the text.
+std::string judge(const Observed &o, const Belief &adm, std::int64_t now, const std::map<std::string, std::set<Bytes>> &ever,
+                  std::string &kind, Belief *posterior = nullptr)
 {
   if (!o.foreignKeys.empty())
   {
@@ -359,27 +454,43 @@ std::string judge(const Observed &o, const Admissible &ad, const std::map<std::s
     kind = "read-paths-disagree";
     return o.inconsistency;
   }
+  if (posterior) posterior->clear();
   for (const auto &k : U().keys)
   {
-    const KState *got = lookup(o.state, k);
-    const KState *oldS = lookup(*ad.acked, k);
-    const KState *newS = (ad.after && ad.touched && ad.touched->count(k)) ? lookup(*ad.after, k) : oldS;
-    auto same = [](const KState *a, const KState *b) { return (!a && !b) || (a && b && *a == *b); };
-    if (same(got, oldS) || same(got, newS)) continue;
-    std::string exp = showState(oldS);
-    if (!same(oldS, newS)) exp += " or " + showState(newS) + " (operation in flight)";
+    auto git = o.state.find(k);
+    const Seen *got = git == o.state.end() ? nullptr : &git->second;
+    const Alts &alts = altsOf(adm, k);
+    Alts keep;
+    for (const auto &x : alts)
+      if (agrees(x, got, now)) addAlt(keep, x);
+    if (!keep.empty())
+    {
+      if (posterior) (*posterior)[k] = std::move(keep);
+      continue;
+    }
+    std::string exp;
+    bool anyPresent = false, sameValue = false;
+    for (const auto &x : alts)
+    {
+      if (!exp.empty()) exp += " or ";
+      exp += showAlt(x, now);
+      Alt n = normalised(x, now);
+      if (n) anyPresent = true;
+      if (n && got && n->value == got->value) sameValue = true;
+    }
+    if (alts.size() > 1) exp += " (operation in flight / ambiguous instant)";
     if (got)
     {
       auto it = ever.find(k);
       bool known = it != ever.end() && it->second.count(got->value);
       if (!known) kind = "torn-or-foreign-value";
-      else if (!oldS && !newS) kind = "resurrected-key";
-      else if ((oldS && got->value == oldS->value) || (newS && got->value == newS->value)) kind = "wrong-expiry";
+      else if (!anyPresent) kind = "resurrected-key";
+      else if (sameValue) kind = "wrong-expiry";
       else kind = "stale-value";
     }
     else
       kind = "lost-acknowledged-write";
-    return "key " + kvref::showKey(k) + " shows " + showState(got) + ", admissible: " + exp;
+    return "key " + kvref::showKey(k) + " shows " + showSeen(got) + ", admissible: " + exp;
   }
   return {};
 }
@@ -390,14 +501,36 @@ std::string judge(const Observed &o, const Admissible &ad, const std::map<std::s
 struct OpInfo
 {
   std::string desc;
-  KMap after;
+  Belief after;
   std::set<std::string> touched;
+  std::int64_t tAfter = kT0; // wall clock when the operation had returned
 };
 
 // marker encoding shared with the tracer: 2*i = operation i in flight, 2*i+1 = operation i
 // has returned and nothing is in flight
 int inFlight(int i) { return 2 * i; }
 int returned(int i) { return 2 * i + 1; }
+
+/// belief and wall-clock time of the crash instant described by `marker` in a session whose
+/// operations are `ops`
+Belief admissibleAt(const std::vector<OpInfo> &ops, int marker, std::int64_t tStart, std::int64_t &tCrash, int &opIdx, bool &inflight)
+{
+  opIdx = marker / 2;
+  if (opIdx < 0) opIdx = 0;
+  if (opIdx >= static_cast<int>(ops.size())) opIdx = static_cast<int>(ops.size()) - 1;
+  inflight = marker >= 0 && (marker % 2) == 0;
+  std::size_t i = static_cast<std::size_t>(opIdx);
+  if (!inflight)
+  {
+    tCrash = ops[i].tAfter;
+    return ops[i].after;
+  }
+  static const Belief empty;
+  const Belief &acked = i == 0 ? (ops.empty() ? empty : ops[0].after) : ops[i - 1].after;
+  tCrash = i == 0 ? tStart : ops[i - 1].tAfter;
+  // operation 0 is the open itself: it touches nothing
+  return admissible(acked, &ops[i].after, &ops[i].touched);
+}
 
 std::vector<std::size_t> cutsFor(const fstrace::Effect &e, std::size_t &budget)
 {
@@ -468,16 +601,20 @@ struct Plan
   std::vector<Step> suffix;    // continuation
   int contMode = 0;            // 0 clean close, 1 crash after the suffix, 2 crash inside the continuation
   std::int64_t cutSel = 0;     // selects the second crash position (mode 2)
+  std::int64_t gap1 = 0;       // wall-clock ms between the first crash and the reopen
+  std::int64_t gap2 = 0;       // wall-clock ms between the end of the continuation and the last reopen
 };
 
-std::string renderPlan(const Plan &p, const std::vector<OpInfo> &ops)
+std::string renderPlan(const Plan &p, const std::vector<OpInfo> &ops, const std::vector<std::string> &suffixDescs)
 {
   std::string s = p.cfg.str() + " | ";
   for (std::size_t i = 1; i < ops.size(); ++i) s += std::to_string(i) + ":" + ops[i].desc + "; ";
-  s += "| continuation(" + std::string(p.contMode == 0 ? "clean close" : p.contMode == 1 ? "crash after suffix" : "crash inside") + "): ";
-  KMap tmp;
-  std::map<std::string, std::set<Bytes>> ev;
-  for (auto &st : p.suffix) s += applyStep(st, nullptr, tmp, ev).desc + "; ";
+  s += pbt::Fmt() << "| reopen " << p.gap1 << "ms after the crash | continuation("
+                  << (p.contMode == 0 ? "clean close" : p.contMode == 1 ? "crash after suffix" : "crash inside") << ", last reopen " << p.gap2
+                  << "ms later): ";
+  if (suffixDescs.empty())
+    for (auto &st : p.suffix) s += std::string(kOpName[st.op]) + "(..); ";
+  for (auto &d : suffixDescs) s += d + "; ";
   return s;
 }
 
@@ -491,12 +628,14 @@ void runKvPlan(pbt::Case &c, const Plan &plan)
   }
   iora::core::Logger::setLevel(iora::core::Logger::Level::Fatal);
   pbt::watchdog(300, "C11/store-call-did-not-return");
-  c12_clock_set(kT0);
+  std::int64_t now = kT0;
+  c12_clock_set(now);
 
   // ---------------- Phase 1: traced history -------------------------------------------
   std::vector<OpInfo> ops; // ops[0] = initial open, then the steps, then the final clean close
   std::map<std::string, std::set<Bytes>> ever;
-  KMap model;
+  Belief model;
+  bool advanced = false;
   fstrace::materialise(dirA(), fstrace::Image{});
   fstrace::begin(dirA(), fstrace::Image{});
   std::unique_ptr<KVStore> kv;
@@ -506,7 +645,7 @@ void runKvPlan(pbt::Case &c, const Plan &plan)
     fstrace::setOp(inFlight(0));
     kv = std::make_unique<KVStore>(dirA() + "/kv", plan.cfg.make());
     fstrace::setOp(returned(0));
-    ops.push_back(OpInfo{"open", model, {}});
+    ops.push_back(OpInfo{"open", model, {}, now});
     for (const Step &st : plan.steps)
     {
       int i = static_cast<int>(ops.size());
@@ -520,12 +659,14 @@ void runKvPlan(pbt::Case &c, const Plan &plan)
       }
       else
       {
-        Applied a = applyStep(st, kv.get(), model, ever);
+        Applied a = applyStep(st, kv.get(), model, ever, now);
         info.desc = a.desc;
         info.touched = a.touched;
+        if (st.op == OpAdvance) advanced = true;
       }
       fstrace::setOp(returned(i));
       info.after = model;
+      info.tAfter = now;
       ops.push_back(std::move(info));
       c.label(std::string("op ") + kOpName[st.op]);
     }
@@ -534,7 +675,7 @@ void runKvPlan(pbt::Case &c, const Plan &plan)
       fstrace::setOp(inFlight(i));
       kv.reset();
       fstrace::setOp(returned(i));
-      ops.push_back(OpInfo{"clean close", model, {}});
+      ops.push_back(OpInfo{"clean close", model, {}, now});
     }
   }
   catch (const std::exception &e)
@@ -543,7 +684,8 @@ void runKvPlan(pbt::Case &c, const Plan &plan)
   }
   kv.reset();
   fstrace::Result tr = fstrace::end();
-  c.describe(renderPlan(plan, ops));
+  std::vector<std::string> suffixDescs;
+  c.describe(renderPlan(plan, ops, suffixDescs));
   if (!err.empty())
   {
     c.fail("C11/operation-threw", "first session: operation " + std::to_string(ops.size()) + " threw: " + err);
@@ -553,10 +695,9 @@ void runKvPlan(pbt::Case &c, const Plan &plan)
 
   // ---------------- Phase 2-4: every crash point --------------------------------------
   const std::vector<fstrace::Effect> &E = tr.effects;
-  std::size_t budget = 4096, totalBytes = 0;
+  std::size_t budget = 4096;
   bool sampled = false;
-  for (auto &e : E) totalBytes += e.data.size();
-  std::uint64_t points = 0, insideWrite = 0, renameGap = 0, tornAppend = 0;
+  std::uint64_t insideWrite = 0, renameGap = 0, tornAppend = 0, deadlinePassed = 0;
   bool failed = false;
 
   fstrace::Image img; // image before effect i
@@ -565,51 +706,52 @@ void runKvPlan(pbt::Case &c, const Plan &plan)
     std::vector<std::size_t> cuts{0};
     if (i < E.size() && E[i].kind == fstrace::Effect::Write)
     {
-      std::size_t before = budget;
       auto more = cutsFor(E[i], budget);
       if (E[i].data.size() > 1 && more.size() != E[i].data.size() - 1) sampled = true;
-      (void)before;
       cuts.insert(cuts.end(), more.begin(), more.end());
     }
     for (std::size_t b : cuts)
     {
-      // --- which operations had returned at this instant
+      // --- which operations had returned at this instant, and what time it was
       int marker = i < E.size() ? E[i].op : returned(static_cast<int>(ops.size()) - 1);
-      int opIdx = marker / 2;
-      bool inflight = (marker % 2) == 0;
-      const KMap &acked = inflight ? (opIdx == 0 ? ops[0].after /*empty*/ : ops[static_cast<std::size_t>(opIdx) - 1].after)
-                                   : ops[static_cast<std::size_t>(opIdx)].after;
-      Admissible ad;
-      ad.acked = &acked;
-      if (inflight)
-      {
-        ad.after = &ops[static_cast<std::size_t>(opIdx)].after;
-        ad.touched = &ops[static_cast<std::size_t>(opIdx)].touched;
-      }
+      int opIdx = 0;
+      bool inflight = false;
+      std::int64_t tCrash = kT0;
+      Belief adm = admissibleAt(ops, marker, kT0, tCrash, opIdx, inflight);
+      const std::int64_t tReopen = tCrash + plan.gap1;
       fstrace::Image at = img;
       if (b > 0) fstrace::apply(at, E[i], b);
       const bool midWrite = b > 0;
       const bool tornLog = midWrite && E[i].name == "kv.log";
       const bool gap = b == 0 && i > 0 && i < E.size() && E[i - 1].kind == fstrace::Effect::Rename &&
                        E[i - 1].name2 == "kv";
-      ++points;
       if (midWrite) { ++insideWrite; c.label("crash point: strictly inside a write"); }
       else c.label("crash point: at an effect boundary");
       if (gap) { ++renameGap; c.label("crash point: between snapshot rename and log reset"); }
+      {
+        // some key's deadline passed between the operation that set it and this reopen
+        bool passed = false;
+        for (auto &kvp : adm)
+          for (auto &x : kvp.second)
+            if (x && x->expiry && *x->expiry <= tReopen) passed = true;
+        if (passed) { ++deadlinePassed; c.label("crash point: a key's expiry has passed at reopen time"); }
+      }
 
       std::string where = pbt::Fmt() << "crash " << (midWrite ? "inside" : "before") << " effect " << i << "/" << E.size()
                                      << (i < E.size() ? std::string(" (") + E[i].api + " " + E[i].name + ")" : std::string(" (end)"))
                                      << (midWrite ? (pbt::Fmt() << " after " << b << " of " << E[i].data.size() << " bytes").str() : std::string())
                                      << ", operation " << opIdx << " [" << ops[static_cast<std::size_t>(opIdx)].desc << "] "
-                                     << (inflight ? "in flight" : "returned");
+                                     << (inflight ? "in flight" : "returned") << " at t=+" << (tCrash - kT0) << "ms, reopen at t=+" << (tReopen - kT0) << "ms";
 
       // --- Phase 3: recovery
+      now = tReopen;
+      c12_clock_set(now);
       fstrace::materialise(dirB(), at);
       fstrace::begin(dirB(), at);
       std::unique_ptr<KVStore> rec;
       Observed obs;
       std::vector<OpInfo> cops; // continuation: cops[0] = recovery open
-      KMap model2;
+      Belief model2;
       std::string phase = "recovery";
       try
       {
@@ -619,7 +761,7 @@ void runKvPlan(pbt::Case &c, const Plan &plan)
         c.label("reopen run");
         obs = readAll(*rec);
         std::string kind;
-        std::string why = judge(obs, ad, ever, kind);
+        std::string why = judge(obs, adm, now, ever, kind, &model2);
         if (!why.empty())
         {
           std::string sig = "C11/recovery/" + kind;
@@ -631,23 +773,23 @@ void runKvPlan(pbt::Case &c, const Plan &plan)
         if (!failed)
         {
           phase = "continuation";
-          model2 = obs.state;
-          cops.push_back(OpInfo{"recovery open", model2, {}});
+          cops.push_back(OpInfo{"recovery open", model2, {}, now});
           auto ever2 = ever;
+          std::vector<std::string> descs;
           for (const Step &st : plan.suffix)
           {
             int j = static_cast<int>(cops.size());
             fstrace::setOp(inFlight(j));
-            Applied a = applyStep(st, rec.get(), model2, ever2);
+            Applied a = applyStep(st, rec.get(), model2, ever2, now);
             fstrace::setOp(returned(j));
-            cops.push_back(OpInfo{a.desc, model2, a.touched});
+            cops.push_back(OpInfo{a.desc, model2, a.touched, now});
+            descs.push_back(a.desc);
           }
+          suffixDescs = descs;
           // every operation acknowledged in this session is visible before the close
           {
             Observed o2 = readAll(*rec);
-            Admissible ad2;
-            ad2.acked = &model2;
-            std::string kind2, why2 = judge(o2, ad2, ever2, kind2);
+            std::string kind2, why2 = judge(o2, model2, now, ever2, kind2);
             if (!why2.empty())
             {
               c.fail("C11/continuation/live-" + kind2, where + "; continuation, before close: " + why2);
@@ -659,21 +801,18 @@ void runKvPlan(pbt::Case &c, const Plan &plan)
             fstrace::setOp(inFlight(j));
             rec.reset(); // clean close
             fstrace::setOp(returned(j));
-            cops.push_back(OpInfo{"clean close", model2, {}});
+            cops.push_back(OpInfo{"clean close", model2, {}, now});
           }
           fstrace::Result tr2 = fstrace::end();
           if (!failed && !selfCheckTrace(c, tr2, dirB(), "continuation")) failed = true;
           if (!failed)
           {
-            // the directory the second reopen sees
+            // the directory, the belief and the time the last reopen sees
             fstrace::Image second = at;
-            Admissible ad3;
+            Belief adm3 = model2;
+            std::int64_t tEnd = now;
             std::string how = "clean close";
-            if (plan.contMode == 0)
-            {
-              ad3.acked = &model2; // nothing to do: the real directory already is the final image
-            }
-            else
+            if (plan.contMode != 0)
             {
               // second crash: position among the continuation's effects
               const auto &E2 = tr2.effects;
@@ -691,14 +830,9 @@ void runKvPlan(pbt::Case &c, const Plan &plan)
               for (std::size_t q = 0; q < stop; ++q) fstrace::apply(second, E2[q]);
               if (bytes > 0) fstrace::apply(second, E2[stop], bytes);
               int m2 = stop < nRun ? E2[stop].op : returned(static_cast<int>(cops.size()) - 2);
-              int oi = m2 / 2;
-              bool infl = (m2 % 2) == 0;
-              ad3.acked = infl ? (oi == 0 ? &cops[0].after : &cops[static_cast<std::size_t>(oi) - 1].after) : &cops[static_cast<std::size_t>(oi)].after;
-              if (infl)
-              {
-                ad3.after = &cops[static_cast<std::size_t>(oi)].after;
-                ad3.touched = &cops[static_cast<std::size_t>(oi)].touched;
-              }
+              int oi = 0;
+              bool infl = false;
+              adm3 = admissibleAt(cops, m2, tReopen, tEnd, oi, infl);
               how = pbt::Fmt() << "second crash " << (bytes ? "inside" : "before") << " continuation effect " << stop << "/" << nRun
                                << (bytes ? (pbt::Fmt() << " after " << bytes << " bytes").str() : std::string())
                                << ", continuation operation " << oi << " [" << cops[static_cast<std::size_t>(oi)].desc << "] " << (infl ? "in flight" : "returned");
@@ -714,10 +848,13 @@ void runKvPlan(pbt::Case &c, const Plan &plan)
               c.label("continuation appended to the log after a torn tail");
             }
             phase = "second reopen";
+            now = tEnd + plan.gap2;
+            c12_clock_set(now);
+            how += pbt::Fmt() << ", last reopen at t=+" << (now - kT0) << "ms";
             KVStore again(dirB() + "/kv", plan.cfg.make());
             c.label("reopen run");
             Observed o3 = readAll(again);
-            std::string kind3, why3 = judge(o3, ad3, ever2, kind3);
+            std::string kind3, why3 = judge(o3, adm3, now, ever2, kind3);
             if (!why3.empty())
             {
               std::string sig = (tornLog && appended) ? "C11/continuation/after-torn-tail/" + kind3 : "C11/continuation/" + kind3;
@@ -749,17 +886,19 @@ void runKvPlan(pbt::Case &c, const Plan &plan)
   c12_clock_disable();
   fstrace::materialise(dirA(), fstrace::Image{});
   fstrace::materialise(dirB(), fstrace::Image{});
+  c.describe(renderPlan(plan, ops, suffixDescs));
   c.label("history");
   c.label(sampled ? "history: large writes cut at boundaries +-8 B and a stride" : "history: every byte offset of every write enumerated");
+  if (advanced || plan.gap1 || plan.gap2) c.label("history: the wall clock moves (advance op or crash-to-reopen gap)");
+  if (deadlinePassed) c.label("history: some reopen happened after a key's expiry had passed");
   std::uint64_t digest = pbt::hash64(plan.cfg.str());
   for (auto &st : plan.steps)
     for (auto x : st.r) digest = pbt::hashMix(digest, static_cast<std::uint64_t>(x));
   for (auto &st : plan.suffix)
     for (auto x : st.r) digest = pbt::hashMix(digest, static_cast<std::uint64_t>(x) + 77);
   digest = pbt::hashMix(digest, static_cast<std::uint64_t>(plan.contMode * 1000003 + plan.cutSel));
+  digest = pbt::hashMix(digest, static_cast<std::uint64_t>(plan.gap1 * 31 + plan.gap2));
   if (insideWrite || renameGap || tornAppend) c.nontrivial(digest);
-  (void)totalBytes;
-  (void)points;
 }
 
 std::vector<Step> decodeSteps(const std::vector<pbt::Row> &rows, const char *session, bool allowReopen)
@@ -786,17 +925,22 @@ PBT_PROPERTY(kv_crash)
   p.cfg.cache = src.oneOf<std::uint32_t>({1000, 2});
   p.steps = decodeSteps(src.rows(12, 4, 0, (1 << 16) - 1), "v", true);
   p.suffix = decodeSteps(src.rows(3, 4, 0, (1 << 16) - 1), "c", false);
-  if (p.suffix.empty())
+  bool writes = false;
+  for (auto &s : p.suffix)
+    if (s.op != OpAdvance && s.op != OpCompact) writes = true;
+  if (!writes)
   {
-    // a continuation always writes something: default suffix = one plain set
+    // a continuation always writes something: default = one plain set
     Step s;
     s.op = OpSet;
     s.r = pbt::Row{0, 3, 5, 0};
-    s.tag = "c1:";
+    s.tag = "c0:";
     p.suffix.push_back(s);
   }
   p.contMode = static_cast<int>(src.weighted({5, 2, 3}));
   p.cutSel = src.range(0, 1 << 20);
+  p.gap1 = kGapMs[src.weighted({3, 1, 1, 2, 3})];
+  p.gap2 = kGapMs[src.weighted({4, 1, 1, 2, 2})];
   runKvPlan(c, p);
 }
 
@@ -1043,6 +1187,32 @@ PBT_REGRESSION(kv_compaction_window)
                          krow(OpExpireAt, 2, 1), krow(OpPersist, 1), krow(OpCompact), krow(OpClear)}, "v", true);
   p.suffix = decodeSteps({krow(OpSet, 3, 5)}, "c", false);
   p.contMode = 1;
+  runKvPlan(c, p);
+}
+// A TTL key lands in the snapshot (compact), then persist()/expireAt(later) RETURN, then the
+// ORIGINAL deadline passes (advance 1 h) before the crash/close and reopen: the key must be
+// there with its value (the 'X' record in the log overrides the snapshot entry's expiry)
+PBT_REGRESSION(kv_persist_after_snapshot_then_deadline_passes)
+{
+  Plan p;
+  p.cfg.maxLog = 1u << 20;
+  p.steps = decodeSteps({krow(OpSetTtl, 0, 3, 0), krow(OpSetTtl, 1, 4, 0), krow(OpCompact), krow(OpPersist, 0),
+                         krow(OpExpireAt, 1, 5), krow(OpAdvance, 3)}, "v", true);
+  p.suffix = decodeSteps({krow(OpSet, 3, 5)}, "c", false);
+  p.contMode = 0;
+  runKvPlan(c, p);
+}
+// same, but the deadline passes between the crash and the reopen (no advance op)
+PBT_REGRESSION(kv_deadline_passes_between_crash_and_reopen)
+{
+  Plan p;
+  p.cfg.maxLog = 1u << 20;
+  p.steps = decodeSteps({krow(OpSetTtl, 0, 3, 0), krow(OpSetTtl, 1, 4, 0), krow(OpSetTtl, 2, 6, 0), krow(OpCompact),
+                         krow(OpPersist, 0), krow(OpExpireAt, 1, 5)}, "v", true);
+  p.suffix = decodeSteps({krow(OpSet, 3, 5), krow(OpAdvance, 2)}, "c", false);
+  p.contMode = 1;
+  p.gap1 = 3600000;
+  p.gap2 = 1000;
   runKvPlan(c, p);
 }
 // S14: a flush completed, the next flush is cut: the store must not come back empty
